@@ -26,7 +26,7 @@ try:
     # demos assert their own worktree path; point them at the tree being tested
     for i in range(1, 21):
       src = src.replace('/tmp/seed-C%02d' % i, tree)
-    p = os.path.join(d, '_demo.py')
+    p = os.path.join(tree, '_demo.py')
     open(p, 'w').write(src)
     r = subprocess.run(['/venv/bin/python', p], cwd=tree, env=dict(os.environ, PYTHONPATH=tree),
                        capture_output=True, text=True, timeout=300)
